@@ -357,7 +357,8 @@ def _fresh_merge(v, borrowed):
 
 
 def run(program, rep, tier):
-    evrules.delivery_sites(program, rep, 'C03', {'deliver', 'snapshot'})
+    evrules.delivery_sites(program, rep, 'C03', {'deliver', 'snapshot',
+                                                 'deref'})
     check_tables(program, rep)
     check_unknown(program, rep)
     check_mapping(program, rep)
